@@ -4,6 +4,7 @@
 package driver
 
 import (
+	"text/template/parse"
 	"encoding/json"
 	"fmt"
 	"math/rand"
@@ -91,7 +92,7 @@ var lazyBlacklist = []string{"unicode", "runtime", "reflect", "syscall", "fmt", 
 	"compress/", "hash/", "encoding/binary", "encoding/base64", "mime", "os/exec", "os/signal", "os/user", "context", "internal/testlog", "vendor/", "math/big", "math/bits", "embed", "flag"}
 
 func NewProgram(l *load.Loaded, tier string) *xexec.Program {
-	p := &xexec.Program{Prog: l.Prog, Redirects: l.Redirects, InitPkgs: map[string]bool{}, LazyInit: map[string]bool{}, Tier: tier, ApiPath: load.ApiPath, Summarize: map[string]bool{}}
+	p := &xexec.Program{Prog: l.Prog, Redirects: l.Redirects, InitPkgs: map[string]bool{}, LazyInit: map[string]bool{}, Tier: tier, ApiPath: load.ApiPath, Summarize: map[string]bool{}, TreeCache: map[string]*parse.Tree{}}
 	for k := range l.Summarize {
 		p.Summarize[k] = true
 	}
